@@ -380,7 +380,11 @@ func examine(exp *ref.JDoc, f ref.JSONFormat, data []byte, cellLen, off int) []f
 	var txt []byte
 	var n int
 	var err error
+	tok := chk.EnterInFlight(func() string {
+		return fmt.Sprintf("JSON document %s stored in format %v (%d-byte cell)", util.Clip([]byte(exp.String())), f, cellLen)
+	})
 	pan := chk.Catch(func() { txt, n, err = replication.CellBytes(data, off, ref.TJSON, 4, false) })
+	chk.LeaveInFlight(tok)
 	rc := rootContext(exp, f)
 	switch {
 	case pan != "":
